@@ -220,14 +220,23 @@ func OpenDB(args ...interface{}) (massdb.MassDB, error) {
 		}
 	}
 
+	// A map A written for another key or bit length must not be used to fill this map B.
+	if hmA != nil && (hmA.bl != hmB.bl || hmA.pkHash != hmB.pkHash) {
+		hmA.Close()
+		hmB.Close()
+		return nil, ErrDBWrongPubKeyHash
+	}
+
+	// Report the identity recorded in the file header, not the one the caller derived
+	// from the file name, so that callers can tell a renamed file from a genuine one.
 	return &MassDBV1{
 		HashMapA:   hmA,
 		HashMapB:   hmB,
 		filePathA:  pathA,
 		filePathB:  pathB,
-		bl:         bitLength,
-		pubKey:     pubKey,
-		pubKeyHash: pocutil.PubKeyHash(pubKey),
+		bl:         hmB.bl,
+		pubKey:     hmB.pk,
+		pubKeyHash: hmB.pkHash,
 	}, nil
 }
 
@@ -261,14 +270,23 @@ func CreateDB(args ...interface{}) (massdb.MassDB, error) {
 		return nil, ErrDBWrongType
 	}
 
+	// A map A written for another key or bit length must not be used to fill this map B.
+	if hmA != nil && (hmA.bl != hmB.bl || hmA.pkHash != hmB.pkHash) {
+		hmA.Close()
+		hmB.Close()
+		return nil, ErrDBWrongPubKeyHash
+	}
+
+	// Report the identity recorded in the file header, not the one the caller derived
+	// from the file name, so that callers can tell a renamed file from a genuine one.
 	return &MassDBV1{
 		HashMapA:   hmA,
 		HashMapB:   hmB,
 		filePathA:  pathA,
 		filePathB:  pathB,
-		bl:         bitLength,
-		pubKey:     pubKey,
-		pubKeyHash: pocutil.PubKeyHash(pubKey),
+		bl:         hmB.bl,
+		pubKey:     hmB.pk,
+		pubKeyHash: hmB.pkHash,
 	}, nil
 }
 
